@@ -219,3 +219,39 @@ PROPS = {
         undecided=['the lower bound of the in-buffer shortcut and the offset arithmetic that feeds it', 'line numbers beyond the per-record advance and the first-record scan'],
         trusted=COMMON_TRUST + ['std::io::Seek']),
 }
+
+
+# ---------------------------------------------------------------------------------------------------------------
+# Rules that know the readers by the names of their private fields.  If a format's private layout was renamed or
+# regrouped (round 6: `buf_pos` + `search_pos` wrapped into an `Offsets` struct; `incomplete_pos` -> `stalled_in`,
+# `RecordPos` -> `Line`), these rules have nothing to hold on to: their failing instances for that format are
+# "no verdict", never violations.
+LAYOUT = {
+    'fasta': {'Reader': ['buf_reader', 'buf_pos', 'search_pos', 'position', 'state', 'buf_policy'], 'BufferPosition': ['start', 'seq_pos'], 'enums': ['fasta::State']},
+    'fastq': {'Reader': ['buf_reader', 'buf_pos', 'incomplete_pos', 'position', 'state', 'buf_policy'], 'BufferPosition': ['pos', 'seq', 'sep', 'qual'], 'enums': ['fastq::State', 'fastq::RecordPos']},
+}
+NAME_DEPENDENT = ('FSM-', 'SEEK-', 'UNIT-', 'EPOS-', 'STAGE-1', 'GROW-4', 'GROW-5', 'GROW-6', 'GROW-7', 'BUF-2', 'ADV-1', 'CHAIN-1', 'LEN-2', 'LEN-3', 'TPL-4', 'SCAN-3', 'ALLOC-2', 'MARK-1')
+
+
+def layout_guard(prog, R):
+    changed = {}
+    for fmt, want in LAYOUT.items():
+        miss = []
+        for adt_name in ('Reader', 'BufferPosition'):
+            adt = prog.adts.get('%s::%s' % (fmt, adt_name))
+            have = set(fd['name'] for fd in adt['variants'][0]['fields']) if adt else set()
+            miss += ['%s.%s' % (adt_name, n) for n in want[adt_name] if n not in have]
+        miss += [e for e in want['enums'] if e not in prog.adts]
+        if miss:
+            changed[fmt] = miss
+    if not changed:
+        return changed
+    for it in R.items:
+        if it['ok'] or not it['rule'].startswith(NAME_DEPENDENT):
+            continue
+        for fmt, miss in changed.items():
+            if ('%s::' % fmt) in it['key'] or it['key'].endswith(':%s' % fmt) or (':%s:' % fmt) in it['key']:
+                it['ok'] = True
+                it['undecided'] = True
+                it['detail'] = 'no verdict: the private layout of the %s reader changed (%s not found) and this rule identifies the reader state by those names - it reported: %s' % (fmt, ', '.join(miss), it['detail'][:160])
+    return changed
